@@ -40,7 +40,7 @@ def dino (j : Json) : Except String Json := do
   match Dino.collate () H W n k gens perm with
   | .error e => pure (Json.mkObj [("out", errStr e)])
   | .ok o =>
-    pure (Json.mkObj [("out", "ok"), ("masks", Json.arr (o.masks.map maskJson).toArray),
+    pure (Json.mkObj [("out", "ok"), ("masks", Json.arr (o.masks.map maskJson).toArray), ("shuffles", ofNatList [n]),
       ("gens", Json.arr (o.gens.map (fun g => Json.mkObj [("done", ofNat g.done), ("left", ofNat g.rest.length),
         ("trace", Json.arr (g.trace.map trJson).toArray)])).toArray)])
 
